@@ -67,6 +67,15 @@ Fixpoint cs_update_loop (fuel : nat) (p : platform) (cs : chunk_state) (input : 
              (skipn (N.to_nat rs_BLOCK_LEN) input)
        end.
 
+(* second half of ChunkState::update: the block loop, the final fill_buf, the two debug_asserts *)
+Definition cs_update_tail (p : platform) (cs : chunk_state) (input : list N) : res chunk_state :=
+  '(cs, input) <- cs_update_loop (S (Nat.div (length input) 64)) p cs input ;;
+  '(cs, input) <- cs_fill_buf cs input ;;
+  assert! (nlen input =? 0) code 1303 ;;
+  c <- cs_count cs ;;
+  assert! (c <=? rs_CHUNK_LEN) code 1304 ;;
+  Ok cs.
+
 Definition cs_update (p : platform) (cs : chunk_state) (input : list N) : res chunk_state :=
   '(cs, input) <-
     (if 0 <? cs_buf_len cs then
@@ -79,12 +88,7 @@ Definition cs_update (p : platform) (cs : chunk_state) (input : list N) : res ch
          Ok (mkCS cv (cs_ctr cs) zero_block 0 blocks (cs_flags cs), input)
        else Ok (cs, input)
      else Ok (cs, input)) ;;
-  '(cs, input) <- cs_update_loop (S (Nat.div (length input) 64)) p cs input ;;
-  '(cs, input) <- cs_fill_buf cs input ;;
-  assert! (nlen input =? 0) code 1303 ;;
-  c <- cs_count cs ;;
-  assert! (c <=? rs_CHUNK_LEN) code 1304 ;;
-  Ok cs.
+  cs_update_tail p cs input.
 
 Definition cs_output (cs : chunk_state) : output :=
   mkOutput (cs_cv cs) (cs_buf cs) (cs_buf_len cs) (cs_ctr cs)
